@@ -13,6 +13,10 @@
 // phase close: no hooks — the first Read / Write on the public object is parked (k bytes of the
 // first record delivered, client silent) and ANOTHER goroutine calls Close / a deadline setter;
 // watchdog: a call that does not return is the observation `hang`.
+// phase listen (listen.go): one listener, one accept loop, SEVERAL peers (silent, slow, first record
+// split over time, early disconnects, real clients) in every order; logical time in ticks.
+// Every phase calls the listener's Accept under a watchdog: an Accept that does not return although a
+// connection is waiting in the inner listener is the observation `accept=hang`.
 package main
 
 import (
@@ -92,6 +96,27 @@ func (l *oneListener) Accept() (net.Conn, error) {
 }
 func (l *oneListener) Close() error   { return nil }
 func (l *oneListener) Addr() net.Addr { return &net.TCPAddr{} }
+
+// acceptWD: the listener's Accept under a watchdog.  The inner listener has a connection waiting, so
+// an Accept that does not come back is waiting for something else (the peer's first bytes, ...).
+func acceptWD(ln net.Listener) (net.Conn, error, bool) {
+	type res struct {
+		c   net.Conn
+		err error
+	}
+	ch := make(chan res, 1)
+	go func() {
+		c, err := ln.Accept()
+		ch <- res{c, err}
+	}()
+	select {
+	case r := <-ch:
+		return r.c, r.err, true
+	case <-time.After(watchdogFor(watchdog)):
+		stuckSeen.Add(1)
+		return nil, nil, false
+	}
+}
 
 func parseEvs(s string) []ev {
 	if s == "-" || s == "" {
@@ -211,7 +236,10 @@ func execRoute(desc string) string {
 	inner := &oneListener{ch: make(chan net.Conn, 1)}
 	inner.ch <- &scriptConn{evs: parseEvs(evS)}
 	ln := pa.NewListener(inner, tc, sc)
-	c, err := ln.Accept()
+	c, err, back := acceptWD(ln)
+	if !back {
+		return "accept=hang"
+	}
 	if err != nil {
 		return "accept=" + errClass(err)
 	}
@@ -260,7 +288,10 @@ func execPub(desc string) string {
 	inner := &oneListener{ch: make(chan net.Conn, 1)}
 	inner.ch <- &scriptConn{evs: parseEvs(evS)}
 	ln := pa.NewListener(inner, tc, sc)
-	c, err := ln.Accept()
+	c, err, back := acceptWD(ln)
+	if !back {
+		return "accept=hang"
+	}
 	if err != nil {
 		return "accept=" + errClass(err)
 	}
@@ -349,12 +380,16 @@ func execClose(desc string) string {
 	inner := &oneListener{ch: make(chan net.Conn, 1)}
 	inner.ch <- cw
 	ln := pa.NewListener(inner, tc, sc)
-	c, err := ln.Accept()
-	if err != nil {
-		return "accept=" + errClass(err)
-	}
+	// the client's k bytes are on the wire before the server gets round to Accept
 	if k > 0 {
 		ce.Inject(stream(byte(major), k))
+	}
+	c, err, back := acceptWD(ln)
+	if !back {
+		return "accept=hang"
+	}
+	if err != nil {
+		return "accept=" + errClass(err)
 	}
 	callDone := make(chan string, 1)
 	go func() {
@@ -516,8 +551,17 @@ func execE2E(desc string) string {
 	ln := pa.NewListener(inner, tc, sc)
 	served := make(chan string, 1)
 	poll := make(chan string, 1)
+	acceptHung := make(chan struct{})
 	go func() {
-		c, err := ln.Accept()
+		c, err, back := acceptWD(ln)
+		if !back {
+			close(acceptHung)
+			poll <- "none"
+			served <- "none"
+			openGate()
+			se.Close()
+			return
+		}
 		if err != nil {
 			poll <- "none"
 			served <- "none"
@@ -640,6 +684,11 @@ func execE2E(desc string) string {
 	}
 	ce.Close()
 	se.Close()
+	select {
+	case <-acceptHung:
+		return "accept=hang"
+	default:
+	}
 	hs := "fail"
 	if r.hs {
 		hs = "ok"
@@ -658,6 +707,8 @@ func execute(desc string) string {
 			out = execPub(desc)
 		case "close":
 			out = execClose(desc)
+		case "listen":
+			out = execListen(desc)
 		default:
 			out = execRoute(desc)
 		}
@@ -757,8 +808,16 @@ func main() {
 	o := hx.ParseOpts()
 	tr := hx.NewTrace(o.Out)
 	defer tr.Close()
-	emit := func(desc string) { tr.Line(desc, execute(desc)) }
-	if o.Replay != "" {
+	replaying := o.Replay != ""
+	emit := func(desc string) {
+		// a tree that hangs systematically (40 watchdog expiries in this process, each a reported spec
+		// failure): the rest of the phase would cost a watchdog per case and add nothing
+		if !replaying && stuckSeen.Load() >= 40 {
+			return
+		}
+		tr.Line(desc, execute(desc))
+	}
+	if replaying {
 		for _, c := range hx.ReplayCases(o.Replay) {
 			emit(c)
 		}
@@ -924,6 +983,10 @@ func main() {
 			}
 			pub(hx.Pick(rng, shapes), evs, joinOr(ops))
 		}
+	}
+
+	if o.Phase == "" || o.Phase == "listen" {
+		genListen(emit, rng, thorough, o.Scale)
 	}
 
 	if o.Phase == "" || o.Phase == "close" {
